@@ -371,6 +371,35 @@ XPathProcessorImpl::tokenize(const XalanDOMString&  pat)
 
                 substring(pat, theToken, i, i + 1);
 
+                // "!=", "<=", ">=" and "//" are single tokens of the XPath
+                // grammar, so white space may not separate their two
+                // characters.  The parser cannot tell, since it sees them
+                // as two tokens, so "1 < = 2" and "/ / a" are refused here.
+                if ((c == XalanUnicode::charEqualsSign || c == XalanUnicode::charSolidus) &&
+                    i > 1 &&
+                    isXMLWhitespace(pat[i - 1]) == true)
+                {
+                    t_size_type     j = i - 1;
+
+                    while(j > 0 && isXMLWhitespace(pat[j]) == true)
+                    {
+                        --j;
+                    }
+
+                    const XalanDOMChar  thePreviousChar = pat[j];
+
+                    if (c == XalanUnicode::charSolidus ?
+                            thePreviousChar == XalanUnicode::charSolidus :
+                            (thePreviousChar == XalanUnicode::charExclamationMark ||
+                             thePreviousChar == XalanUnicode::charLessThanSign ||
+                             thePreviousChar == XalanUnicode::charGreaterThanSign))
+                    {
+                        error(
+                            XalanMessages::UnexpectedTokenFound_1Param,
+                            theToken);
+                    }
+                }
+
                 addToTokenQueue(theToken);
             }       
             break;
